@@ -7,7 +7,7 @@ from checks.coords import SymCoords
 from symx import skeletons as SK
 
 SKELS = ["cat3", "two_tree", "two_parents", "disjoint_node", "two_roots", "mutation_above_root",
-         "local_root_mutation",
+         "local_root_mutation", "multi_hit", "multi_hit_mono",
          "unary_nonsample", "internal_sample", "diploid_cherry", "diploid_two_tree"]
 
 
@@ -59,6 +59,34 @@ def h_count(ctx, skel, size_biased, custom_mask=False):
     ctx.tag("size_biased" if size_biased else "plain")
     if custom_mask:
         ctx.tag("custom_mask")
+
+
+def h_public(ctx, skel, size_biased):
+    """the public count_mutations(ts) wrapper hands the kernel per-MUTATION positions etc.:
+    same result as the kernel called directly on the columns."""
+    from symx import load
+    from symx.dom import Q
+    from checks.coords import SymTS
+    rescaling = load.tsdate_module("rescaling")
+    ts = SK.all_named()[skel]()
+    with load.patched(rescaling):
+        sc = SymCoords(ctx, ts)
+        mask = np.full(ts.num_nodes, False)
+        mask[list(ts.samples())] = True
+        try:
+            want, wedge = _call_count(ctx, rescaling, ts, sc, mask, size_biased)
+            got, gedge = rescaling.count_mutations(SymTS(ts, sc), size_biased=size_biased)
+        except Exception as e:
+            ctx.fail("no-exception", detail={"exception": repr(e)[:300]})
+            return
+    ctx.prove("public:same_shape", got.shape == want.shape)
+    for e in range(ts.num_edges):
+        ctx.prove(f"public:mutations[{e}]", Q.of(got[e, 0]) == Q.of(want[e, 0]))
+        ctx.prove(f"public:span[{e}]", Q.of(got[e, 1]) == Q.of(want[e, 1]))
+    ctx.prove("public:mutation_edges", [int(x) for x in gedge] == [int(x) for x in wedge])
+    ctx.tag("public")
+    from symx.dom import choice
+    choice("pad_")
 
 
 def h_public_mask(ctx, skel):
@@ -148,6 +176,9 @@ def cases(tier):
         cs.append(Case(f"count:{sk}:sb1:custom", h_count,
                        dict(skel=sk, size_biased=True, custom_mask=True)))
         cs.append(Case(f"mask:{sk}", h_public_mask, dict(skel=sk)))
+    for sk in ("cat3", "two_tree", "multi_hit", "multi_hit_mono", "local_root_mutation"):
+        for sb in (False, True):
+            cs.append(Case(f"public:{sk}:sb{int(sb)}", h_public, dict(skel=sk, size_biased=sb)))
     for sk in ("diploid_cherry", "diploid_two_tree", "diploid_missing"):
         cs.append(Case(f"blocks:{sk}", h_blocks, dict(skel=sk)))
     return cs
@@ -175,7 +206,7 @@ def run(tier, seed, t0):
                      "(they depend only on the order of coordinates, preserved symbolically)"],
         out_of_scope=["tskit's own index construction", "inputs with > 3 trees"],
         validated=npx.validate(),
-        expect_tags=["plain", "size_biased", "custom_mask", "blocks"],
+        expect_tags=["plain", "size_biased", "custom_mask", "blocks", "public"],
     )
 
 
@@ -207,17 +238,20 @@ def _replay_on(ts, payload):
             return True, f"count_mutations(ts, node_is_sample=<mask of size num_nodes>) raised {e!r}"
         return False, "mask accepted"
     # the skeleton's own coordinates are a concrete instance of the symbolic family
-    if case.startswith("count:"):
+    if case.startswith(("count:", "public:")):
         sb = kw["size_biased"]
         samples = list(ts.samples())
         if kw.get("custom_mask"):
             samples = samples[:-1]
         mask = np.full(ts.num_nodes, False)
         mask[samples] = True
-        stats, medge = rescaling._count_mutations(
-            mask, ts.mutations_node, ts.sites_position[ts.mutations_site], ts.edges_parent,
-            ts.edges_child, ts.edges_left, ts.edges_right, ts.indexes_edge_insertion_order,
-            ts.indexes_edge_removal_order, ts.sequence_length, sb)
+        if case.startswith("public:"):
+            stats, medge = rescaling.count_mutations(ts, size_biased=sb)
+        else:
+            stats, medge = rescaling._count_mutations(
+                mask, ts.mutations_node, ts.sites_position[ts.mutations_site], ts.edges_parent,
+                ts.edges_child, ts.edges_left, ts.edges_right, ts.indexes_edge_insertion_order,
+                ts.indexes_edge_removal_order, ts.sequence_length, sb)
         bad = []
         for e in ts.edges():
             span = 0.0
